@@ -199,3 +199,41 @@ def reader_dependent_state(ctx, bodies, rule):
         ctx.inst(rule, b.name, False, '%s interprets the reader or the I/O error kind (%s): result may depend on reader behaviour'
                  % (b.name, c.callee if c else 'match on io::ErrorKind'), c.span if c else b.span, key=ctx.key(b.name, rule, 'kind', ''))
     ctx.inst(rule, 'loader', not bad, 'no Seek / BufRead / io::ErrorKind use in %d loader bodies' % len(bodies), None, key='LOAD|%s|none' % rule)
+
+
+ENTRY_CALLEES = ('std::fs::File::open', 'std::io::BufReader::new', 'std::io::BufReader::with_capacity', 'asefile::parse::read_aseprite',
+                 'std::ops::Try::branch', 'std::ops::FromResidual::from_residual', 'std::convert::From::from', 'std::convert::Into::into',
+                 'std::convert::AsRef::as_ref', 'std::ops::Deref::deref')
+
+
+def entry_points(ctx, rule):
+    """the two public loaders add nothing to the one parser: read_file = read_aseprite(BufReader::new(File::open(path)?)), read =
+    read_aseprite(input), and neither looks at the bytes, the file size or anything else on its own (seeds C07-j: a size check that
+    rejects trailing bytes; C13-i: an unguarded peek at the magic that panics on a 5-byte file; C13-j: a prefetch loop that pads a
+    truncated input with zeros)"""
+    fx = ctx.fx
+    rf = ctx.anchor('asefile::file::AsepriteFile::read_file')
+    if rf is not None:
+        t = res(rf).ok_ret()
+        ok = t[0] == 'call' and t[1] == 'asefile::parse::read_aseprite' and t[2][0][0] == 'call' and t[2][0][1] == 'std::io::BufReader::new' \
+            and t[2][0][2][0][0] == 'call' and t[2][0][2][0][1] == 'std::fs::File::open' and is_param(t[2][0][2][0][2][0], 1)
+        ctx.inst(rule, 'read_file', ok, 'read_file = %s; must be read_aseprite(BufReader::new(File::open(path)?))' % show(t), rf.span, key=rf.name + '|%s' % rule)
+        for c in q.calls(rf, 'std::fs::File::open'):
+            fates = q.result_fates(rf, c.dest['l'])
+            ctx.inst(rule, 'read_file#open', bool(fates) and all(f[0] == 'try' for f in fates), 'File::open error is ?-propagated (-> IoError)',
+                     c.span, key=rf.name + '|%s|open' % rule)
+    rd = ctx.anchor('asefile::file::AsepriteFile::read')
+    if rd is not None:
+        t = res(rd).ret()
+        ok = t[0] == 'call' and t[1] == 'asefile::parse::read_aseprite' and is_param(t[2][0], 1)
+        ctx.inst(rule, 'read', ok, 'read = %s; must be read_aseprite(input)' % show(t), rd.span, key=rd.name + '|%s' % rule)
+    for b in (rf, rd):
+        if b is None:
+            continue
+        for c in q.calls(b):
+            nm = q.callee_name(c)
+            if nm in ENTRY_CALLEES or c.callee in ENTRY_CALLEES or any(nm.endswith(x.split('std::')[-1]) for x in ENTRY_CALLEES if x.startswith('std::convert') or x.startswith('std::ops')):
+                continue
+            ctx.inst(rule, '%s -> %s' % (b.name.split('::')[-1], nm.split('::')[-1]), False, '%s calls %s; the public loaders must hand their input to '
+                     'read_aseprite untouched (no peeking, sizing, prefetching or checks of their own)' % (b.name.split('asefile::')[-1], nm), c.span,
+                     key=ctx.key(b.name, rule, 'entry-extra', nm))
